@@ -1,11 +1,12 @@
 (* C07 - Packets the proxy builds decode as intended by an independent vanilla decoder.
    The independent decoder is dec_L of the reference layouts in Model/Vanilla.v (written from the protocol
-   specification).  Theorems: for every listed packet whose Go encoder the translator could translate, the vanilla
-   decoder inverts gate's encoder at every registered (protocol, direction) - except the recorded deviation
-   (1.7 arrays, finding C07-2, shown real below); for player-info updates, whose encoder is outside the
-   fragment, the canonical encoder the property demands is inverted for EVERY action list in whatever order, and the
-   hand model of the encoder as implemented is refuted on a non-canonical ActionSet (finding C07-1).
-   Login start and Disconnect are decided by correspondence only (Check/C07.v). *)
+   specification).  Baseline: the tree with the fix commits d54f770 (player-info action order) and 6e760d1 (two-byte
+   1.7 array length); both former findings are repaired, the theorems below are about TODAY's code:
+   for every listed packet whose Go encoder the translator translates, the vanilla decoder inverts gate's encoder at
+   EVERY registered (protocol, direction); for player-info updates, whose encoder is outside the fragment, the hand
+   model impl_upsert of today's encoder is the canonical encoder (impl_is_spec) and is inverted for every action list
+   in whatever order.  The defective PRE-FIX variants are kept (prefix_upsert, prefix_plugin_message_17) with their
+   refutations stated as facts about the old code.  Login start and Disconnect: correspondence only (Check/C07.v). *)
 From Coq Require Import List NArith ZArith String Bool.
 From Verif Require Import Base.Hex Model.Layout Model.LayoutPrims Model.Vanilla Gen.PacketLayouts
   Proofs.C04_layout Proofs.C04_prims Proofs.GenLemmas Proofs.C07.
@@ -13,19 +14,19 @@ Import ListNotations.
 Open Scope string_scope.
 
 (* obligation on the regenerated translation: gate's Encode layout = the vanilla reference, resolved at every
-   registered context outside the 1.7 deviation, and the reference is well formed; a referenced type that leaves
-   the fragment fails it as well.  Names the failing type. *)
+   registered context, and the reference is well formed; a referenced type that leaves the fragment fails it as well.
+   Names the failing type. *)
 Theorem C07_encoders_match_references : c07_failing = [].
 Proof. exact C07_layouts. Qed.
 Print Assumptions C07_encoders_match_references.
 
 (* handshake, status request/response/ping, keep-alive (int / VarInt / long eras), set compression, transfer,
-   login plugin request/response, encryption request/response (1.8+), login success (text / int-array / raw uuid
-   eras, properties, strict-error flag, session id), plugin message (1.8+), player-info remove:
+   login plugin request/response, encryption request/response (incl. 1.7 framing), login success (text / int-array /
+   raw uuid eras, properties, strict-error flag, session id), plugin message (incl. 1.7 framing), player-info remove:
    vanilla_decode (gate_encode v) = v, nothing left over, for every value of the reference's domain *)
 Theorem C07_vanilla_decodes_gate_encoding :
   forall name enc dec ctxs van, In (Fragment name enc dec ctxs) packets -> find_ref name references = Some van ->
-  forall c, In c ctxs -> covered name c = true ->
+  forall c, In c ctxs ->
   forall v, in_dom LP lp_dom (van c) c v ->
   exists bs, enc_L LP enc c v = Ok bs /\ dec_L LP (van c) c bs = Ok (v, []).
 Proof. exact C07_vanilla_decodes_lemma. Qed.
@@ -35,32 +36,38 @@ Print Assumptions C07_vanilla_decodes_gate_encoding.
 Theorem C07_references_are_registered : refs_present = true.
 Proof. exact C07_refs_present. Qed.
 
-(* the excluded contexts are a genuine deviation: a 1.7 plugin message with five data bytes, as gate encodes it,
-   is not read back by the reference (one length byte instead of a short) *)
-Theorem C07_17_arrays_refuted :
-  in_dom LP lp_dom (van_plugin_message (mkctx 4 true)) (mkctx 4 true) pm17_value /\
-  exists bs, enc_L LP enc_plugin_Message (mkctx 4 true) pm17_value = Ok bs /\
-             dec_L LP (van_plugin_message (mkctx 4 true)) (mkctx 4 true) bs <> Ok (pm17_value, []).
-Proof. exact C07_17_refuted_lemma. Qed.
-Print Assumptions C07_17_arrays_refuted.
-
 (* "player-info updates list each entry's action data in the protocol's fixed action order regardless of the order
-   in which the API supplied the actions": the canonical encoder is inverted by the vanilla reader for EVERY acts *)
-Theorem C07_upsert_spec_holds : forall acts c, In c ctxs_playerinfo_Upsert ->
+   in which the API supplied the actions": today's encoder is the canonical one ... *)
+Theorem C07_upsert_impl_is_spec : forall acts c, impl_upsert acts c = spec_upsert acts c.
+Proof. exact C07_upsert_impl_is_spec_lemma. Qed.
+
+(* ... and is inverted by the vanilla reader for EVERY action list *)
+Theorem C07_upsert_impl_holds : forall acts c, In c ctxs_playerinfo_Upsert ->
   forall v, in_dom LP lp_dom (van_upsert acts c) c v ->
-  exists bs, enc_L LP (spec_upsert acts c) c v = Ok bs /\ dec_L LP (van_upsert acts c) c bs = Ok (v, []).
-Proof. exact C07_upsert_spec_lemma. Qed.
-Print Assumptions C07_upsert_spec_holds.
+  exists bs, enc_L LP (impl_upsert acts c) c v = Ok bs /\ dec_L LP (van_upsert acts c) c bs = Ok (v, []).
+Proof. exact C07_upsert_impl_lemma. Qed.
+Print Assumptions C07_upsert_impl_holds.
 
-Theorem C07_upsert_impl_eq_spec_off_trigger : forall acts c, canonical acts = acts -> impl_upsert acts c = spec_upsert acts c.
-Proof. exact C07_upsert_impl_eq_spec_lemma. Qed.
+(* ---------- facts about the PRE-FIX code (kept for the record; not the code of today) ---------- *)
 
-(* the encoder as implemented (hand model of playerinfo.Upsert.Encode: entry data in ActionSet order) violates it:
-   ActionSet [UpdateLatency; UpdateListed], latency 300, listed *)
-Theorem C07_upsert_refuted :
+(* before d54f770: the encoder wrote the entry data in ActionSet order; equal to the canonical encoder only off the trigger *)
+Theorem C07_prefix_upsert_eq_spec_off_trigger : forall acts c, canonical acts = acts -> prefix_upsert acts c = spec_upsert acts c.
+Proof. exact C07_prefix_upsert_eq_spec_off_trigger_lemma. Qed.
+
+(* ... and refuted on ActionSet [UpdateLatency; UpdateListed], latency 300, listed *)
+Theorem C07_prefix_upsert_refuted :
   canonical [4; 3]%N <> [4; 3]%N /\
   in_dom LP lp_dom (van_upsert [4; 3]%N (mkctx 765 true)) (mkctx 765 true) ups_intended /\
-  exists bs, enc_L LP (impl_upsert [4; 3]%N (mkctx 765 true)) (mkctx 765 true) ups_value = Ok bs /\
+  exists bs, enc_L LP (prefix_upsert [4; 3]%N (mkctx 765 true)) (mkctx 765 true) ups_value = Ok bs /\
              van_upsert_decode (mkctx 765 true) bs <> Ok (ups_intended, []).
-Proof. exact C07_upsert_refuted_lemma. Qed.
-Print Assumptions C07_upsert_refuted.
+Proof. exact C07_prefix_upsert_refuted_lemma. Qed.
+Print Assumptions C07_prefix_upsert_refuted.
+
+(* before 6e760d1: a 1.7 plugin message with five data bytes, as gate encoded it (one length byte), was not read back
+   by the reference *)
+Theorem C07_prefix_17_arrays_refuted :
+  in_dom LP lp_dom (van_plugin_message (mkctx 4 true)) (mkctx 4 true) pm17_value /\
+  exists bs, enc_L LP prefix_plugin_message_17 (mkctx 4 true) pm17_value = Ok bs /\
+             dec_L LP (van_plugin_message (mkctx 4 true)) (mkctx 4 true) bs <> Ok (pm17_value, []).
+Proof. exact C07_prefix_17_refuted_lemma. Qed.
+Print Assumptions C07_prefix_17_arrays_refuted.
